@@ -17,7 +17,7 @@ BINARY = {
     '__mul__': '(s * o)', '__rmul__': '(o * s)', '__truediv__': '(s / o)', '__rtruediv__': '(o / s)',
 }
 UNARY = {'__neg__': '(- s)', '__pos__': 's'}
-REQUIRED = ['__add__', '__sub__', '__rsub__', '__mul__', '__rmul__', '__truediv__', '__rtruediv__', '__pow__']
+REQUIRED = ['__add__', '__radd__', '__neg__', '__sub__', '__rsub__', '__mul__', '__rmul__', '__truediv__', '__rtruediv__', '__pow__', '__rpow__']
 NON_ARITHMETIC = {'__init__', '__array__', '__getitem__', 'shape', 'astuple'}
 FIELD = ('field', {'value': 0})
 
@@ -27,7 +27,7 @@ def generate():
     it = Interp(SRC, 'jx')
     cl = t2.only([n for n in it.tree.body if isinstance(n, ast.ClassDef) and n.name == 'JaxDiscreteField'], 'class JaxDiscreteField')
     methods = {n.name: n for n in cl.body if isinstance(n, ast.FunctionDef)}
-    unknown = sorted(set(methods) - set(BINARY) - set(UNARY) - NON_ARITHMETIC - {'__pow__'})
+    unknown = sorted(set(methods) - set(BINARY) - set(UNARY) - NON_ARITHMETIC - {'__pow__', '__rpow__'})
     if unknown:
         raise TranslateError(f'{SRC}: JaxDiscreteField has special method(s) without a theorem: {unknown}')
     missing = [m for m in REQUIRED if m not in methods]
@@ -71,6 +71,28 @@ def generate():
                 defs.append(f'(* __pow__ with exponent {k} *)\nDefinition {dn} (s : R) : R :=\n  {res.at([])}.')
                 want = '(s * s)' if k == 2 else '((s * s) * s)'
                 lemmas.append(f'Lemma {dn}_def : forall s : R, {dn} s = {want}.\nProof. intros. first [reflexivity | unfold {dn}; ring]. Qed.')
+    # powers with a non-constant exponent are not ring terms: the power function is an abstract symbol pw of the model
+    # (``base ** exponent`` -> pw base exponent); what is checked is WHICH operand is the base
+    for name, params, want in (('__pow__', ['self', 'ix'], 'pw s o'), ('__rpow__', ['self', 'other'], 'pw o s')):
+        if name not in methods:
+            continue
+        fdef = methods[name]
+        body = [st for st in fdef.body if not (isinstance(st, ast.Expr) and isinstance(st.value, ast.Constant))]
+        if [a.arg for a in fdef.args.args] != params or len(body) != 1 or not isinstance(body[0], ast.Return) \
+                or not isinstance(body[0].value, ast.BinOp) or not isinstance(body[0].value.op, ast.Pow):
+            raise TranslateError(f'JaxDiscreteField.{name}: expected a single "return <a> ** <b>"')
+        sym = {'self.value': 's', params[1]: 'o'}
+        ops_ = []
+        for side in (body[0].value.left, body[0].value.right):
+            if t2.src(side) not in sym:
+                raise TranslateError(f'JaxDiscreteField.{name}: operand {t2.src(side)}')
+            ops_.append(sym[t2.src(side)])
+        dn = 'jdf_' + name.strip('_') + '_sym'
+        if name not in present:
+            present.append(name)
+        defs.append(f'(* {name}: {t2.src(body[0].value)} with an abstract power function *)\n'
+                    f'Definition {dn} (pw : R -> R -> R) (s o : R) : R :=\n  pw {ops_[0]} {ops_[1]}.')
+        lemmas.append(f'Lemma {dn}_def : forall (pw : R -> R -> R) (s o : R), {dn} pw s o = {want}.\nProof. intros. reflexivity. Qed.')
     txt = (f'(* GENERATED by vlib/c20_ops.py from {SRC} (class JaxDiscreteField) -- do not edit *)\n'
            'From Coq Require Import Ring.\nRequire Import Base.C20_Ring.\nSection Gen.\nContext {R : Type} {ops : FOps R}.\nOpen Scope F_scope.\n\n'
            + '\n'.join(defs) + '\n\n(* each special method is the operator it implements (commutativity of + and * is the only law used) *)\n'
